@@ -121,6 +121,14 @@ def gen_case(rng, strategies=ALL, max_m=20, max_n=24, integer_ok=True):
          "supplier": rng.choice(["poly", "poly", "falsy", "poly1d0", "override", "override2", "instance"]),
          "objhist": rng.choice(["same", "same", "same", "scribble", "refill", "reenter", "sibling", "clone"]),
          "call": rng.choice(["keyword", "keyword", "positional"]), "argrep": S.pick_argrep(rng, 0.7)}
+    if not integer and rng.random() < 0.12:
+        # abscissae held in single / half precision (a compact recording): every value of the case is exactly such a
+        # float, so the numbers are the same and the oversampled grid is still defined in double precision
+        import numpy as _np
+        for dt in rng.sample(["float32", "float16"], 2):
+            if all(Fraction(float(_np.dtype(dt).type(float(v)))) == v for v in x):
+                c["x_fdtype"] = dt
+                break
     if s in WINDOW:
         if rng.random() < 0.6:
             c["alpha"] = str(Fraction(rng.randint(1, 16), 16))
@@ -168,7 +176,7 @@ def np_x(c):
     x, _ = series(c)
     if c.get("int_x"):
         return S.arr([int(v) for v in x])
-    return S.arr(floats(x))
+    return S.arr(floats(x), dtype=c.get("x_fdtype"))
 
 
 # the documented constructor signatures of the pinned version (positional order after x, y, n)
